@@ -576,9 +576,12 @@ class _DivZero:
             if isinstance(o, SymInt) and bool(SymBool(_r(o) == 0)): raise ZeroDivisionError("division by zero")
         def tdiv(self_, o): chk(o); return SymReal(_r(self_) / _r(o))
         def fdiv(self_, o):
-            chk(o); ctx = symx.CTX; CtxU.fresh += 1
-            k = SymInt(z3.Int(f"floordiv!{CtxU.fresh}")); q = _r(self_) / _r(o)
-            ctx.assume(_rb(_r(k) <= q)); ctx.assume(_rb(q < _r(k) + 1)); return k
+            chk(o); ctx = symx.CTX; q = _r(self_) / _r(o)
+            cache = ctx.__dict__.setdefault("floordiv_cache", {})          # // is a function: the same operands give the same integer on a path
+            if q.get_id() in cache: return cache[q.get_id()][1]
+            CtxU.fresh += 1
+            k = SymInt(z3.Int(f"floordiv!{CtxU.fresh}"))
+            ctx.assume(_rb(_r(k) <= q)); ctx.assume(_rb(q < _r(k) + 1)); cache[q.get_id()] = (q, k); return k
         SymReal.__truediv__ = tdiv; SymInt.__truediv__ = tdiv; SymReal.__floordiv__ = fdiv; SymInt.__floordiv__ = fdiv
     def __exit__(self, *a):
         if self.saved[0] is not None: SymReal.__truediv__ = self.saved[0]
